@@ -1,8 +1,20 @@
-// throw-away prototype of the fact extractor (exploration only)
+// cfgx - fact extractor for the libcoap static checks.
+//
+// One libTooling action per translation unit.  For every function body it
+// emits the clang CFG (built with setAllAlwaysAdd, so every sub-expression is
+// a CFG element in evaluation order) as JSON: blocks, ordered successors,
+// case labels with evaluated constants, noreturn marks, the branch condition
+// (CFGBlock::getLastCondition) and an ordered list of "events" with a JSON
+// expression tree.  Also: record layouts (field names/types/widths), global
+// variables with initialisers (function-pointer tables) and, per function,
+// where it is declared (to tell public headers from internal ones).
+//
+// Output: <outdir>/<basename of unit>.json   (outdir MUST be absolute: ClangTool
+// chdir()s into the compile-command directory).
 #include "clang/AST/ASTConsumer.h"
 #include "clang/AST/Attr.h"
+#include "clang/AST/ParentMap.h"
 #include "clang/AST/RecursiveASTVisitor.h"
-#include "clang/AST/RecordLayout.h"
 #include "clang/Analysis/CFG.h"
 #include "clang/Frontend/CompilerInstance.h"
 #include "clang/Frontend/FrontendAction.h"
@@ -10,26 +22,45 @@
 #include "clang/Tooling/CommonOptionsParser.h"
 #include "clang/Tooling/Tooling.h"
 #include "llvm/Support/CommandLine.h"
+#include "llvm/Support/FileSystem.h"
 #include "llvm/Support/JSON.h"
 #include "llvm/Support/raw_ostream.h"
-#include "llvm/Support/FileSystem.h"
 using namespace clang;
 using namespace clang::tooling;
 namespace json = llvm::json;
 static llvm::cl::OptionCategory Cat("cfgx");
-static llvm::cl::opt<std::string> OutDir("o", llvm::cl::desc("output dir"), llvm::cl::cat(Cat), llvm::cl::init("."));
+static llvm::cl::opt<std::string> OutDir("o", llvm::cl::desc("output dir (absolute)"),
+                                         llvm::cl::cat(Cat), llvm::cl::init("."));
+static bool HadError = false;
+
+static std::string recName(const RecordDecl *R) {
+  if (!R) return "";
+  if (!R->getName().empty()) return R->getNameAsString();
+  if (auto *T = R->getTypedefNameForAnonDecl()) return T->getNameAsString();
+  return "";
+}
 
 struct Ser {
-  ASTContext &C; SourceManager &SM;
+  ASTContext &C;
+  SourceManager &SM;
   Ser(ASTContext &c) : C(c), SM(c.getSourceManager()) {}
+  std::string fileOf(SourceLocation L) {
+    PresumedLoc P = SM.getPresumedLoc(SM.getExpansionLoc(L));
+    if (P.isInvalid()) return "?";
+    return std::string(P.getFilename());
+  }
   std::string locstr(SourceLocation L) {
-    SourceLocation E = SM.getExpansionLoc(L);
-    PresumedLoc P = SM.getPresumedLoc(E);
+    PresumedLoc P = SM.getPresumedLoc(SM.getExpansionLoc(L));
     if (P.isInvalid()) return "?";
     return std::string(P.getFilename()) + ":" + std::to_string(P.getLine());
   }
+  int col(SourceLocation L) {
+    PresumedLoc P = SM.getPresumedLoc(SM.getExpansionLoc(L));
+    return P.isInvalid() ? 0 : (int)P.getColumn();
+  }
   json::Array macros(SourceLocation L) {
-    json::Array A; int guard = 0;
+    json::Array A;
+    int guard = 0;
     while (L.isMacroID() && guard++ < 16) {
       StringRef N = Lexer::getImmediateMacroName(L, SM, C.getLangOpts());
       A.push_back(N.str());
@@ -45,26 +76,52 @@ struct Ser {
       O["s"] = CT->isSignedIntegerOrEnumerationType() ? 1 : 0;
     } else if (CT->isPointerType()) {
       O["p"] = 1;
-      O["pt"] = CT->getPointeeType().getUnqualifiedType().getAsString();
-      if (CT->getPointeeType().isConstQualified()) O["pc"] = 1;
+      QualType PT = CT->getPointeeType();
+      O["pt"] = PT.getUnqualifiedType().getAsString();
+      if (PT.isConstQualified()) O["pc"] = 1;
+      if (PT->isFunctionType()) O["pf"] = 1;
+      if (auto *RD = PT->getAsRecordDecl()) O["prec"] = recName(RD);
+    } else if (auto *CAT = C.getAsConstantArrayType(CT)) {
+      O["alen"] = (int64_t)CAT->getSize().getZExtValue();
+      O["aet"] = CAT->getElementType().getUnqualifiedType().getAsString();
+      QualType ET = CAT->getElementType();
+      while (auto *C2 = C.getAsConstantArrayType(ET)) ET = C2->getElementType();
+      if (auto *RD = ET->getAsRecordDecl()) O["arec"] = recName(RD);
+    } else if (auto *RD = CT->getAsRecordDecl()) {
+      O["rrec"] = recName(RD);
     }
     O["t"] = T.getAsString();
+  }
+  // parameter constness of a function(-pointer) type, for indirect calls
+  void fnproto(json::Object &O, QualType T) {
+    QualType CT = T.getCanonicalType();
+    if (CT->isPointerType()) CT = CT->getPointeeType();
+    if (auto *FP = CT->getAs<FunctionProtoType>()) {
+      json::Array A;
+      for (QualType P : FP->param_types()) {
+        json::Object PO;
+        tyinfo(PO, P);
+        A.push_back(std::move(PO));
+      }
+      O["fpar"] = std::move(A);
+    }
   }
   json::Value expr(const Stmt *S, int depth = 0) {
     json::Object O;
     if (!S) { O["k"] = "null"; return std::move(O); }
-    if (depth > 40) { O["k"] = "deep"; return std::move(O); }
+    if (depth > 60) { O["k"] = "deep"; return std::move(O); }
     const Expr *E = dyn_cast<Expr>(S);
     if (E) {
-      // strip parens / no-op casts
       if (auto *P = dyn_cast<ParenExpr>(E)) return expr(P->getSubExpr(), depth);
       if (auto *CE = dyn_cast<ConstantExpr>(E)) return expr(CE->getSubExpr(), depth);
+      if (auto *OV = dyn_cast<OpaqueValueExpr>(E))
+        if (OV->getSourceExpr()) return expr(OV->getSourceExpr(), depth);
       if (auto *ICE = dyn_cast<ImplicitCastExpr>(E)) {
         CastKind K = ICE->getCastKind();
-        if (K != CK_IntegralCast && K != CK_IntegralToBoolean && K != CK_PointerToBoolean && K != CK_NullToPointer)
+        if (K != CK_IntegralCast && K != CK_IntegralToBoolean && K != CK_PointerToBoolean &&
+            K != CK_NullToPointer)
           return expr(ICE->getSubExpr(), depth);
       }
-      // constant folding
       if (E->getType()->isIntegralOrEnumerationType() && !E->isValueDependent()) {
         Expr::EvalResult R;
         if (E->EvaluateAsInt(R, C, Expr::SE_NoSideEffects)) {
@@ -76,15 +133,23 @@ struct Ser {
           tyinfo(O, E->getType());
           if (auto *DR = dyn_cast<DeclRefExpr>(E->IgnoreParenImpCasts()))
             if (isa<EnumConstantDecl>(DR->getDecl())) O["en"] = DR->getDecl()->getNameAsString();
+          if (E->getBeginLoc().isMacroID())
+            O["mn"] = Lexer::getImmediateMacroName(E->getBeginLoc(), SM, C.getLangOpts()).str();
+          if (isa<UnaryExprOrTypeTraitExpr>(E->IgnoreParenImpCasts())) O["so"] = 1;
           return std::move(O);
         }
       }
-      if (E->isNullPointerConstant(C, Expr::NPC_ValueDependentIsNotNull)) { O["k"] = "nullptr"; return std::move(O); }
+      if (E->getType()->isPointerType() &&
+          E->isNullPointerConstant(C, Expr::NPC_ValueDependentIsNotNull)) {
+        O["k"] = "nullptr";
+        return std::move(O);
+      }
     }
     if (auto *DR = dyn_cast<DeclRefExpr>(S)) {
       const ValueDecl *D = DR->getDecl();
       if (isa<FunctionDecl>(D)) { O["k"] = "fn"; O["n"] = D->getNameAsString(); return std::move(O); }
-      O["k"] = "var"; O["n"] = D->getNameAsString();
+      O["k"] = "var";
+      O["n"] = D->getNameAsString();
       O["id"] = (int64_t)(D->getID());
       if (auto *VD = dyn_cast<VarDecl>(D)) {
         if (VD->hasGlobalStorage()) O["g"] = 1;
@@ -94,61 +159,127 @@ struct Ser {
       return std::move(O);
     }
     if (auto *M = dyn_cast<MemberExpr>(S)) {
-      O["k"] = "mem"; O["f"] = M->getMemberDecl()->getNameAsString(); O["arrow"] = M->isArrow() ? 1 : 0;
+      O["k"] = "mem";
+      O["f"] = M->getMemberDecl()->getNameAsString();
+      O["arrow"] = M->isArrow() ? 1 : 0;
       O["b"] = expr(M->getBase(), depth + 1);
-      QualType BT = M->getBase()->getType(); if (M->isArrow() && !BT->getPointeeType().isNull()) BT = BT->getPointeeType();
-      O["rec"] = BT.getUnqualifiedType().getAsString();
+      QualType BT = M->getBase()->getType();
+      if (M->isArrow() && !BT->getPointeeType().isNull()) BT = BT->getPointeeType();
+      O["rec"] = recName(BT->getAsRecordDecl());
+      if (auto *FD = dyn_cast<FieldDecl>(M->getMemberDecl()))
+        if (FD->isBitField()) O["bf"] = (int64_t)FD->getBitWidthValue(C);
       tyinfo(O, M->getType());
       return std::move(O);
     }
     if (auto *U = dyn_cast<UnaryOperator>(S)) {
-      O["k"] = "un"; O["op"] = UnaryOperator::getOpcodeStr(U->getOpcode()).str();
+      O["k"] = "un";
+      O["op"] = UnaryOperator::getOpcodeStr(U->getOpcode()).str();
       if (U->isPostfix()) O["post"] = 1;
-      O["e"] = expr(U->getSubExpr(), depth + 1); tyinfo(O, U->getType()); return std::move(O);
+      O["e"] = expr(U->getSubExpr(), depth + 1);
+      tyinfo(O, U->getType());
+      return std::move(O);
     }
     if (auto *B = dyn_cast<BinaryOperator>(S)) {
-      O["k"] = B->isAssignmentOp() ? "asg" : "bin"; O["op"] = B->getOpcodeStr().str();
-      O["l"] = expr(B->getLHS(), depth + 1); O["r"] = expr(B->getRHS(), depth + 1);
+      O["k"] = B->isAssignmentOp() ? "asg" : "bin";
+      O["op"] = B->getOpcodeStr().str();
+      O["l"] = expr(B->getLHS(), depth + 1);
+      O["r"] = expr(B->getRHS(), depth + 1);
       tyinfo(O, B->getType());
-      if (auto *CA = dyn_cast<CompoundAssignOperator>(B)) { json::Object T; tyinfo(T, CA->getComputationResultType()); O["ct"] = std::move(T); }
+      if (auto *CA = dyn_cast<CompoundAssignOperator>(B)) {
+        json::Object T;
+        tyinfo(T, CA->getComputationResultType());
+        O["ct"] = std::move(T);
+      }
       return std::move(O);
     }
     if (auto *CE = dyn_cast<CallExpr>(S)) {
       O["k"] = "call";
-      if (const FunctionDecl *FD = CE->getDirectCallee()) O["fn"] = FD->getNameAsString();
-      else O["callee"] = expr(CE->getCallee(), depth + 1);
-      json::Array A; for (const Expr *Arg : CE->arguments()) A.push_back(expr(Arg, depth + 1));
-      O["a"] = std::move(A); tyinfo(O, CE->getType()); return std::move(O);
+      if (const FunctionDecl *FD = CE->getDirectCallee()) {
+        O["fn"] = FD->getNameAsString();
+        if (FD->isNoReturn() || FD->hasAttr<NoReturnAttr>()) O["noret"] = 1;
+      } else {
+        O["callee"] = expr(CE->getCallee(), depth + 1);
+        fnproto(O, CE->getCallee()->getType());
+      }
+      json::Array A;
+      for (const Expr *Arg : CE->arguments()) A.push_back(expr(Arg, depth + 1));
+      O["a"] = std::move(A);
+      tyinfo(O, CE->getType());
+      return std::move(O);
     }
     if (auto *CS = dyn_cast<CastExpr>(S)) {
-      O["k"] = "cast"; O["ex"] = isa<ExplicitCastExpr>(CS) ? 1 : 0; O["ck"] = CS->getCastKindName();
-      O["e"] = expr(CS->getSubExpr(), depth + 1); tyinfo(O, CS->getType()); return std::move(O);
+      O["k"] = "cast";
+      O["ex"] = isa<ExplicitCastExpr>(CS) ? 1 : 0;
+      O["ck"] = CS->getCastKindName();
+      O["e"] = expr(CS->getSubExpr(), depth + 1);
+      tyinfo(O, CS->getType());
+      return std::move(O);
     }
     if (auto *AS = dyn_cast<ArraySubscriptExpr>(S)) {
-      O["k"] = "sub"; O["b"] = expr(AS->getBase(), depth + 1); O["i"] = expr(AS->getIdx(), depth + 1);
+      O["k"] = "sub";
+      O["b"] = expr(AS->getBase(), depth + 1);
+      O["i"] = expr(AS->getIdx(), depth + 1);
       QualType BT = AS->getBase()->IgnoreParenImpCasts()->getType();
       if (auto *CAT = C.getAsConstantArrayType(BT)) O["alen"] = (int64_t)CAT->getSize().getZExtValue();
-      tyinfo(O, AS->getType()); return std::move(O);
+      tyinfo(O, AS->getType());
+      return std::move(O);
     }
-    if (auto *CO = dyn_cast<ConditionalOperator>(S)) {
-      O["k"] = "cond"; O["c"] = expr(CO->getCond(), depth + 1); O["x"] = expr(CO->getTrueExpr(), depth + 1); O["y"] = expr(CO->getFalseExpr(), depth + 1);
-      tyinfo(O, CO->getType()); return std::move(O);
+    if (auto *CO = dyn_cast<AbstractConditionalOperator>(S)) {
+      O["k"] = "cond";
+      O["c"] = expr(CO->getCond(), depth + 1);
+      O["x"] = expr(CO->getTrueExpr(), depth + 1);
+      O["y"] = expr(CO->getFalseExpr(), depth + 1);
+      tyinfo(O, CO->getType());
+      return std::move(O);
     }
-    if (auto *SL = dyn_cast<StringLiteral>(S)) { O["k"] = "str"; if (SL->isAscii() || SL->isUTF8()) O["v"] = SL->getString().str(); return std::move(O); }
-    if (auto *R = dyn_cast<ReturnStmt>(S)) { O["k"] = "ret"; if (R->getRetValue()) O["e"] = expr(R->getRetValue(), depth + 1); return std::move(O); }
+    if (auto *SL = dyn_cast<StringLiteral>(S)) {
+      O["k"] = "str";
+      if (SL->isAscii() || SL->isUTF8()) O["v"] = SL->getString().str();
+      return std::move(O);
+    }
+    if (auto *CL = dyn_cast<CharacterLiteral>(S)) {
+      O["k"] = "int";
+      O["v"] = (int64_t)CL->getValue();
+      tyinfo(O, CL->getType());
+      return std::move(O);
+    }
+    if (auto *R = dyn_cast<ReturnStmt>(S)) {
+      O["k"] = "ret";
+      if (R->getRetValue()) O["e"] = expr(R->getRetValue(), depth + 1);
+      return std::move(O);
+    }
     if (auto *DS = dyn_cast<DeclStmt>(S)) {
-      O["k"] = "decl"; json::Array A;
-      for (const Decl *D : DS->decls()) if (auto *VD = dyn_cast<VarDecl>(D)) {
-        json::Object V; V["n"] = VD->getNameAsString(); V["id"] = (int64_t)VD->getID(); tyinfo(V, VD->getType());
-        if (VD->isStaticLocal()) V["static"] = 1;
-        if (VD->hasInit()) V["init"] = expr(VD->getInit(), depth + 1);
-        A.push_back(std::move(V)); }
-      O["d"] = std::move(A); return std::move(O);
+      O["k"] = "decl";
+      json::Array A;
+      for (const Decl *D : DS->decls())
+        if (auto *VD = dyn_cast<VarDecl>(D)) {
+          json::Object V;
+          V["n"] = VD->getNameAsString();
+          V["id"] = (int64_t)VD->getID();
+          tyinfo(V, VD->getType());
+          if (VD->isStaticLocal()) V["static"] = 1;
+          if (VD->hasInit()) V["init"] = expr(VD->getInit(), depth + 1);
+          A.push_back(std::move(V));
+        }
+      O["d"] = std::move(A);
+      return std::move(O);
     }
-    if (auto *IL = dyn_cast<InitListExpr>(S)) { O["k"] = "initlist"; json::Array A; for (const Expr *I : IL->inits()) A.push_back(expr(I, depth + 1)); O["a"] = std::move(A); return std::move(O); }
-    if (auto *SE = dyn_cast<StmtExpr>(S)) { O["k"] = "stmtexpr"; return std::move(O); }
-    if (auto *UE = dyn_cast<UnaryExprOrTypeTraitExpr>(S)) { O["k"] = "sizeof"; return std::move(O); }
-    O["k"] = "other"; O["c"] = S->getStmtClassName();
+    if (auto *IL = dyn_cast<InitListExpr>(S)) {
+      O["k"] = "initlist";
+      json::Array A;
+      for (const Expr *I : IL->inits()) A.push_back(expr(I, depth + 1));
+      O["a"] = std::move(A);
+      return std::move(O);
+    }
+    if (auto *CLE = dyn_cast<CompoundLiteralExpr>(S)) {
+      O["k"] = "complit";
+      O["e"] = expr(CLE->getInitializer(), depth + 1);
+      return std::move(O);
+    }
+    if (isa<StmtExpr>(S)) { O["k"] = "stmtexpr"; if (E) tyinfo(O, E->getType()); return std::move(O); }
+    if (isa<UnaryExprOrTypeTraitExpr>(S)) { O["k"] = "sizeof"; return std::move(O); }
+    O["k"] = "other";
+    O["c"] = S->getStmtClassName();
     if (E) tyinfo(O, E->getType());
     return std::move(O);
   }
@@ -157,67 +288,162 @@ struct Ser {
 static bool interesting(const Stmt *S) {
   if (isa<CallExpr>(S) || isa<ReturnStmt>(S) || isa<DeclStmt>(S)) return true;
   if (auto *B = dyn_cast<BinaryOperator>(S)) return B->isAssignmentOp();
-  if (auto *U = dyn_cast<UnaryOperator>(S)) return U->isIncrementDecrementOp() || U->getOpcode() == UO_Deref;
+  if (auto *U = dyn_cast<UnaryOperator>(S))
+    return U->isIncrementDecrementOp() || U->getOpcode() == UO_Deref;
   if (auto *M = dyn_cast<MemberExpr>(S)) return M->isArrow();
   if (isa<ArraySubscriptExpr>(S)) return true;
   return false;
 }
 
 struct V : RecursiveASTVisitor<V> {
-  ASTContext &C; Ser S; json::Array Funcs; json::Object Records;
+  ASTContext &C;
+  Ser S;
+  json::Array Funcs, Globals;
+  json::Object Records, Decls;
   V(ASTContext &c) : C(c), S(c) {}
   bool VisitRecordDecl(RecordDecl *R) {
-    if (!R->isCompleteDefinition() || R->getName().empty()) return true;
-    std::string N = R->getNameAsString();
+    if (!R->isCompleteDefinition()) return true;
+    std::string N = recName(R);
+    if (N.empty()) return true;
     if (Records.get(N)) return true;
     json::Array F;
-    for (auto *FD : R->fields()) { json::Object O; O["n"] = FD->getNameAsString(); S.tyinfo(O, FD->getType()); if (FD->isBitField()) O["bf"] = (int64_t)FD->getBitWidthValue(C); F.push_back(std::move(O)); }
+    for (auto *FD : R->fields()) {
+      json::Object O;
+      O["n"] = FD->getNameAsString();
+      S.tyinfo(O, FD->getType());
+      if (FD->isBitField()) O["bf"] = (int64_t)FD->getBitWidthValue(C);
+      F.push_back(std::move(O));
+    }
     Records[N] = std::move(F);
     return true;
   }
+  bool VisitVarDecl(VarDecl *VD) {
+    if (!VD->hasGlobalStorage() || VD->isStaticLocal() || !VD->hasInit()) return true;
+    if (!VD->isThisDeclarationADefinition()) return true;
+    json::Object O;
+    O["n"] = VD->getNameAsString();
+    O["loc"] = S.locstr(VD->getLocation());
+    S.tyinfo(O, VD->getType());
+    O["init"] = S.expr(VD->getInit());
+    Globals.push_back(std::move(O));
+    return true;
+  }
   bool VisitFunctionDecl(FunctionDecl *F) {
+    // where is it declared (all redeclarations) - to classify public/internal headers
+    {
+      std::string N = F->getNameAsString();
+      if (!Decls.get(N)) {
+        json::Array A;
+        for (auto *RD : F->redecls()) A.push_back(S.fileOf(RD->getLocation()));
+        Decls[N] = std::move(A);
+      }
+    }
     if (!F->doesThisDeclarationHaveABody()) return true;
     auto &SM = C.getSourceManager();
     json::Object FO;
-    FO["name"] = F->getNameAsString(); FO["loc"] = S.locstr(F->getLocation());
+    FO["name"] = F->getNameAsString();
+    FO["loc"] = S.locstr(F->getLocation());
     FO["main"] = SM.isInMainFile(SM.getExpansionLoc(F->getLocation())) ? 1 : 0;
-    FO["static"] = (F->getStorageClass() == SC_Static || F->isInlineSpecified()) ? 1 : 0;
-    // attribute may be on any redeclaration
-    bool dep = false; for (auto *A : F->specific_attrs<DeprecatedAttr>()) if (!A->isInherited()) dep = true;
+    FO["static"] = (F->getStorageClass() == SC_Static) ? 1 : 0;
+    FO["inline"] = F->isInlineSpecified() ? 1 : 0;
+    bool dep = false;
+    for (auto *A : F->specific_attrs<DeprecatedAttr>())
+      if (!A->isInherited()) dep = true;
     FO["api"] = dep ? 1 : 0;
-    { json::Object T; S.tyinfo(T, F->getReturnType()); FO["ret"] = std::move(T); }
-    json::Array P; for (auto *PD : F->parameters()) { json::Object O; O["n"] = PD->getNameAsString(); O["id"] = (int64_t)PD->getID(); S.tyinfo(O, PD->getType()); P.push_back(std::move(O)); }
+    {
+      json::Object T;
+      S.tyinfo(T, F->getReturnType());
+      FO["ret"] = std::move(T);
+    }
+    json::Array P;
+    for (auto *PD : F->parameters()) {
+      json::Object O;
+      O["n"] = PD->getNameAsString();
+      O["id"] = (int64_t)PD->getID();
+      S.tyinfo(O, PD->getType());
+      P.push_back(std::move(O));
+    }
     FO["params"] = std::move(P);
-    CFG::BuildOptions BO; BO.setAllAlwaysAdd();
+    CFG::BuildOptions BO;
+    BO.setAllAlwaysAdd();
     auto cfg = CFG::buildCFG(F, F->getBody(), &C, BO);
-    if (!cfg) { FO["nocfg"] = 1; Funcs.push_back(std::move(FO)); return true; }
-    FO["entry"] = (int64_t)cfg->getEntry().getBlockID(); FO["exit"] = (int64_t)cfg->getExit().getBlockID();
+    if (!cfg) {
+      FO["nocfg"] = 1;
+      Funcs.push_back(std::move(FO));
+      return true;
+    }
+    ParentMap PM(F->getBody());
+    FO["entry"] = (int64_t)cfg->getEntry().getBlockID();
+    FO["exit"] = (int64_t)cfg->getExit().getBlockID();
     json::Array Blocks;
     for (CFGBlock *B : *cfg) {
-      json::Object BOj; BOj["id"] = (int64_t)B->getBlockID();
-      json::Array Su; for (auto I = B->succ_begin(); I != B->succ_end(); ++I) { CFGBlock *T = I->getReachableBlock(); if (!T) T = I->getPossiblyUnreachableBlock(); Su.push_back(T ? json::Value((int64_t)T->getBlockID()) : json::Value(nullptr)); }
+      json::Object BOj;
+      BOj["id"] = (int64_t)B->getBlockID();
+      json::Array Su;
+      for (auto I = B->succ_begin(); I != B->succ_end(); ++I) {
+        CFGBlock *T = I->getReachableBlock();
+        if (!T) T = I->getPossiblyUnreachableBlock();
+        Su.push_back(T ? json::Value((int64_t)T->getBlockID()) : json::Value(nullptr));
+      }
       BOj["succ"] = std::move(Su);
       if (B->hasNoReturnElement()) BOj["noret"] = 1;
       if (const Stmt *L = B->getLabel()) {
         json::Object LO;
-        if (auto *CS = dyn_cast<CaseStmt>(L)) { LO["k"] = "case"; LO["lo"] = (int64_t)CS->getLHS()->EvaluateKnownConstInt(C).getExtValue(); if (CS->getRHS()) LO["hi"] = (int64_t)CS->getRHS()->EvaluateKnownConstInt(C).getExtValue(); }
-        else if (isa<DefaultStmt>(L)) LO["k"] = "default";
+        if (auto *CS = dyn_cast<CaseStmt>(L)) {
+          LO["k"] = "case";
+          LO["lo"] = (int64_t)CS->getLHS()->EvaluateKnownConstInt(C).getExtValue();
+          if (CS->getRHS()) LO["hi"] = (int64_t)CS->getRHS()->EvaluateKnownConstInt(C).getExtValue();
+          if (auto *DR = dyn_cast<DeclRefExpr>(CS->getLHS()->IgnoreParenImpCasts()))
+            LO["en"] = DR->getDecl()->getNameAsString();
+          else if (CS->getLHS()->getBeginLoc().isMacroID())
+            LO["mn"] = Lexer::getImmediateMacroName(CS->getLHS()->getBeginLoc(), SM, C.getLangOpts()).str();
+        } else if (isa<DefaultStmt>(L)) LO["k"] = "default";
         else if (auto *LS = dyn_cast<LabelStmt>(L)) { LO["k"] = "label"; LO["n"] = LS->getName(); }
+        LO["loc"] = S.locstr(L->getBeginLoc());
         BOj["label"] = std::move(LO);
       }
       json::Array El;
-      for (auto &E : *B) if (auto CS = E.getAs<CFGStmt>()) {
-        const Stmt *St = CS->getStmt();
-        if (!interesting(St)) continue;
-        json::Object EO; EO["loc"] = S.locstr(St->getBeginLoc());
-        json::Array M = S.macros(St->getBeginLoc()); if (!M.empty()) EO["mac"] = std::move(M);
-        EO["e"] = S.expr(St);
-        El.push_back(std::move(EO));
-      }
+      for (auto &E : *B)
+        if (auto CS = E.getAs<CFGStmt>()) {
+          const Stmt *St = CS->getStmt();
+          if (!interesting(St)) continue;
+          json::Object EO;
+          EO["loc"] = S.locstr(St->getBeginLoc());
+          EO["col"] = S.col(St->getBeginLoc());
+          json::Array M = S.macros(St->getBeginLoc());
+          if (!M.empty()) EO["mac"] = std::move(M);
+          // statement-level expression? (parent is not an expression; a (void) cast counts)
+          if (isa<Expr>(St)) {
+            const Stmt *Pa = PM.getParentIgnoreParens(St);
+            while (Pa && isa<CastExpr>(Pa) && cast<CastExpr>(Pa)->getCastKind() == CK_ToVoid)
+              Pa = PM.getParentIgnoreParens(Pa);
+            if (!Pa || !isa<Expr>(Pa)) {
+              // a condition of if/while/for/switch is not statement-level
+              bool isCond = false;
+              if (Pa) {
+                if (auto *IS = dyn_cast<IfStmt>(Pa)) isCond = IS->getCond() == St;
+                else if (auto *WS = dyn_cast<WhileStmt>(Pa)) isCond = WS->getCond() == St;
+                else if (auto *DS = dyn_cast<DoStmt>(Pa)) isCond = DS->getCond() == St;
+                else if (auto *FS = dyn_cast<ForStmt>(Pa)) isCond = FS->getCond() == St;
+                else if (auto *SS = dyn_cast<SwitchStmt>(Pa)) isCond = SS->getCond() == St;
+                else if (isa<ReturnStmt>(Pa) || isa<DeclStmt>(Pa)) isCond = true;
+              }
+              if (!isCond) EO["top"] = 1;
+            }
+          }
+          EO["e"] = S.expr(St);
+          El.push_back(std::move(EO));
+        }
       BOj["elems"] = std::move(El);
       if (const Stmt *T = B->getTerminatorStmt()) {
-        json::Object TO; TO["c"] = T->getStmtClassName(); TO["loc"] = S.locstr(T->getBeginLoc());
-        { const Stmt *Cd = B->getLastCondition(); if (!Cd) Cd = B->getTerminatorCondition(); if (Cd) TO["cond"] = S.expr(Cd); }
+        json::Object TO;
+        TO["c"] = T->getStmtClassName();
+        TO["loc"] = S.locstr(T->getBeginLoc());
+        {
+          const Stmt *Cd = B->getLastCondition();
+          if (!Cd) Cd = B->getTerminatorCondition();
+          if (Cd) TO["cond"] = S.expr(Cd);
+        }
         if (auto *BOp = dyn_cast<BinaryOperator>(T)) TO["op"] = BOp->getOpcodeStr().str();
         BOj["term"] = std::move(TO);
       }
@@ -228,17 +454,40 @@ struct V : RecursiveASTVisitor<V> {
     return true;
   }
 };
+
 struct Cons : ASTConsumer {
-  std::string In; Cons(StringRef in) : In(in.str()) {}
+  std::string In;
+  CompilerInstance &CI;
+  Cons(CompilerInstance &ci, StringRef in) : In(in.str()), CI(ci) {}
   void HandleTranslationUnit(ASTContext &C) override {
-    V v(C); v.TraverseDecl(C.getTranslationUnitDecl());
-    json::Object Root; Root["file"] = In; Root["functions"] = std::move(v.Funcs); Root["records"] = std::move(v.Records);
-    std::string base = In; auto p = base.find_last_of('/'); if (p != std::string::npos) base = base.substr(p + 1);
-    std::error_code EC; llvm::raw_fd_ostream OS(OutDir + "/" + base + ".json", EC);
-    OS << json::Value(std::move(Root)); }
+    if (CI.getDiagnostics().hasErrorOccurred()) HadError = true;
+    V v(C);
+    v.TraverseDecl(C.getTranslationUnitDecl());
+    json::Object Root;
+    Root["file"] = In;
+    Root["errors"] = CI.getDiagnostics().hasErrorOccurred() ? 1 : 0;
+    Root["functions"] = std::move(v.Funcs);
+    Root["records"] = std::move(v.Records);
+    Root["globals"] = std::move(v.Globals);
+    Root["decls"] = std::move(v.Decls);
+    std::string base = In;
+    auto p = base.find_last_of('/');
+    if (p != std::string::npos) base = base.substr(p + 1);
+    std::error_code EC;
+    llvm::raw_fd_ostream OS(OutDir + "/" + base + ".json", EC);
+    if (EC) { llvm::errs() << "cfgx: cannot write " << OutDir << "/" << base << ".json\n"; HadError = true; return; }
+    OS << json::Value(std::move(Root));
+  }
 };
-struct Act : ASTFrontendAction { std::unique_ptr<ASTConsumer> CreateASTConsumer(CompilerInstance &, StringRef In) override { return std::make_unique<Cons>(In); } };
+struct Act : ASTFrontendAction {
+  std::unique_ptr<ASTConsumer> CreateASTConsumer(CompilerInstance &CI, StringRef In) override {
+    return std::make_unique<Cons>(CI, In);
+  }
+};
 int main(int argc, const char **argv) {
-  auto P = CommonOptionsParser::create(argc, argv, Cat); if (!P) { llvm::errs() << P.takeError(); return 1; }
-  ClangTool T(P->getCompilations(), P->getSourcePathList()); return T.run(newFrontendActionFactory<Act>().get());
+  auto P = CommonOptionsParser::create(argc, argv, Cat);
+  if (!P) { llvm::errs() << P.takeError(); return 2; }
+  ClangTool T(P->getCompilations(), P->getSourcePathList());
+  int r = T.run(newFrontendActionFactory<Act>().get());
+  return (r || HadError) ? 1 : 0;
 }
